@@ -26,6 +26,10 @@ BER = "kaira/metrics/signal/ber.py"
 BLER = "kaira/metrics/signal/bler.py"
 BM = "kaira/benchmarks/metrics.py"
 AN = "kaira/channels/analog.py"
+PW = "kaira/constraints/power.py"
+SG = "kaira/constraints/signal.py"
+AT = "kaira/constraints/antenna.py"
+CU = "kaira/constraints/utils.py"
 SNRU = "kaira/utils/snr.py"
 SNRM = "kaira/metrics/signal/snr.py"
 WAG = "kaira/models/fec/decoders/wagner_soft_decision_decoder.py"
@@ -140,6 +144,28 @@ MUTANTS = {
         ("twin: P/2 instead of P*0.5", AN, "noise_power_component = noise_power * 0.5", "noise_power_component = noise_power / 2", "silent"),
         ("twin: sqrt split", AN, "component_scale = scale / (2**0.5)", "component_scale = scale * (0.5**0.5)", "silent"),
         ("twin: rename", AN, "        noise_real = torch.randn_like(x.real) * torch.sqrt(noise_power_component)\n        noise_imag = torch.randn_like(x.imag) * torch.sqrt(noise_power_component)\n        noise = torch.complex(noise_real, noise_imag)", "        std = torch.sqrt(noise_power_component)\n        n_re = torch.randn_like(x.real) * std\n        n_im = torch.randn_like(x.imag) * std\n        noise = torch.complex(n_re, n_im)", "silent"),
+    ],
+    "C08": [
+        ("total power: sqrt dropped", PW, "            scale = torch.sqrt(self.total_power / (current_power + 1e-8))\n\n            # Create the output tensor", "            scale = self.total_power / (current_power + 1e-8)\n\n            # Create the output tensor", "violation", "POWER-LAW"),
+        ("total power: batch axis reduced", PW, "                current_power = torch.sum(x_reshaped**2, dim=1, keepdim=True)\n\n            # Handle zero signals in a vectorized way\n            zero_mask = current_power < 1e-10\n\n            # Compute scaling factors for all batch items at once\n            scale = torch.sqrt(self.total_power", "                current_power = torch.sum(x_reshaped**2, dim=0, keepdim=True)\n\n            # Handle zero signals in a vectorized way\n            zero_mask = current_power < 1e-10\n\n            # Compute scaling factors for all batch items at once\n            scale = torch.sqrt(self.total_power", "violation", "POWER-LAW"),
+        ("total power: batch-coupled eps", PW, "            scale = torch.sqrt(self.total_power / (current_power + 1e-8))\n\n            # Create the output tensor", "            eps = 1e-8 * torch.clamp(current_power.max(), min=1.0)\n            scale = torch.sqrt(self.total_power / (current_power + eps))\n\n            # Create the output tensor", "violation", "POWER-LAW"),
+        ("average power single: mean forgotten", PW, "            current_power = torch.sum(x**2) / num_elements", "            current_power = torch.sum(x**2)", "violation", "POWER-LAW"),
+        ("average power: large eps", PW, "            scale = torch.sqrt(self.average_power / (current_power + 1e-8))\n\n            # Create the output tensor", "            scale = torch.sqrt(self.average_power / (current_power + 1e-2))\n\n            # Create the output tensor", "violation", "POWER-LAW"),
+        ("total power zero substitute level", PW, "uniform_value = self.total_power_factor / torch.sqrt(torch.tensor(x_reshaped.shape[1]))", "uniform_value = self.total_power_factor / torch.tensor(x_reshaped.shape[1])", "violation", "POWER-LAW"),
+        ("total power: negative scale", PW, "        # Scale the input to achieve desired total power\n        return x * scale", "        # Scale the input to achieve desired total power\n        return -x * scale", "violation", "POWER-LAW"),
+        ("per antenna: reduce antenna axis too", AT, "spatial_dims = tuple(range(2, len(x.shape)))", "spatial_dims = tuple(range(1, len(x.shape)))", "violation", "POWER-LAW"),
+        ("per antenna: amplitude ratio", AT, "scaling_factor = torch.sqrt(target_power / (antenna_power + 1e-8))", "scaling_factor = target_power / (antenna_power + 1e-8)", "violation", "POWER-LAW"),
+        ("peak: signed early return", SG, "        # Simple clipping approach\n        return torch.clamp", "        if torch.max(x) <= self.max_amplitude:\n            return x\n        return torch.clamp", "violation", "PEAK"),
+        ("peak: one-sided clamp", SG, "return torch.clamp(x, -self.max_amplitude, self.max_amplitude)", "return torch.clamp(x, max=self.max_amplitude)", "violation", "PEAK"),
+        ("papr: final bound above limit", PW, "final_max_amplitude = torch.sqrt(avg_power * self.max_papr * 0.98)", "final_max_amplitude = torch.sqrt(avg_power * self.max_papr * 1.2)", "violation", "PAPR"),
+        ("papr: final clip loses sign", PW, "            result[final_excess_mask] = normalized * final_max_amplitude", "            result[final_excess_mask] = final_max_amplitude", "violation", "PAPR"),
+        ("papr: final clip moved into loop", PW, "        if torch.any(final_excess_mask):\n            # Final hard clipping to ensure we're under the limit\n            # This preserves phase for complex signals and sign for real signals\n            normalized = result[final_excess_mask] / (magnitudes[final_excess_mask] + 1e-8)\n            result[final_excess_mask] = normalized * final_max_amplitude\n", "        for _ in range(0):\n            normalized = result[final_excess_mask] / (magnitudes[final_excess_mask] + 1e-8)\n            result[final_excess_mask] = normalized * final_max_amplitude\n", "violation", "PAPR"),
+        ("papr: amplitude instead of power in bound", PW, "final_max_amplitude = torch.sqrt(avg_power * self.max_papr * 0.98)", "final_max_amplitude = avg_power * self.max_papr * 0.98", "violation", "PAPR"),
+        ("ofdm: mask-free reorder keeps finding only", CU, "    # Add power constraint\n    constraints.append(TotalPowerConstraint(total_power))\n", "    constraints.insert(0, TotalPowerConstraint(total_power))\n", "silent"),
+        ("mimo: papr before power", CU, "    # Add power constraint first\n    if uniform_power is not None:\n        constraints.append(PerAntennaPowerConstraint(uniform_power=uniform_power))\n    else:\n        # At this point, total_power must be a float because of the earlier checks\n        assert total_power is not None, \"total_power cannot be None here due to prior validation\"\n        constraints.append(TotalPowerConstraint(total_power=total_power))\n\n    # Add PAPR constraint if specified\n    if max_papr is not None:\n        from .power import PAPRConstraint\n\n        constraints.append(PAPRConstraint(max_papr=max_papr))\n", "    if max_papr is not None:\n        from .power import PAPRConstraint\n\n        constraints.append(PAPRConstraint(max_papr=max_papr))\n    if uniform_power is not None:\n        constraints.append(PeakAmplitudeConstraint(1.0))\n        constraints.append(PerAntennaPowerConstraint(uniform_power=uniform_power))\n    else:\n        constraints.append(TotalPowerConstraint(total_power=total_power))\n", "violation", "COMPOSITE-ORDER"),
+        ("composite skips a stage", "kaira/constraints/composite.py", "        for step in self.constraints:\n            x = step(x, *args, **kwargs)", "        for step in self.constraints[1:]:\n            x = step(x, *args, **kwargs)", "violation", "SEQ-LOOP"),
+        ("twin: scale via pow 0.5", PW, "        scale = torch.sqrt(self.total_power / (current_power + 1e-8))\n\n        # Scale the input to achieve desired total power", "        scale = (self.total_power / (current_power + 1e-8)) ** 0.5\n\n        # Scale the input to achieve desired total power", "silent"),
+        ("twin: split sqrt", PW, "        scale = torch.sqrt(self.average_power / (current_power + 1e-8))\n\n        # Scale the input to achieve desired average power", "        scale = self.power_avg_factor / torch.sqrt(current_power + 1e-8)\n\n        # Scale the input to achieve desired average power", "silent"),
     ],
 }
 
